@@ -30,10 +30,13 @@ type ExecPlan struct {
 }
 
 type TaskSpec struct {
-	Name        string            `json:"name"`
-	Context     string            `json:"ctx,omitempty"`
-	NCmd        int               `json:"ncmd"`
-	NVar        int               `json:"nvar,omitempty"`
+	Name    string `json:"name"`
+	Context string `json:"ctx,omitempty"`
+	NCmd    int    `json:"ncmd"`
+	NVar    int    `json:"nvar,omitempty"`
+	// EmptyVar: 1-based index of a variation that is declared empty (`{}`: "run once with the
+	// defaults, then once per override"); 0 = none. Its commands carry no variation marker.
+	EmptyVar    int               `json:"emptyvar,omitempty"`
 	NBefore     int               `json:"nbefore,omitempty"`
 	NAfter      int               `json:"nafter,omitempty"`
 	Cond        bool              `json:"cond,omitempty"`
@@ -224,6 +227,14 @@ func cmdText(owner, block string, i int) string {
 
 func variationName(k int) string { return fmt.Sprintf("v%d", k) }
 
+// VarName: the marker the commands of variation k carry ("" for the empty variation).
+func (t *TaskSpec) VarName(k int) string {
+	if t.EmptyVar == k+1 {
+		return ""
+	}
+	return variationName(k)
+}
+
 // ---- building the real objects ----
 
 func buildRealTask(ts *TaskSpec) *task.Task {
@@ -256,6 +267,10 @@ func buildRealTask(ts *TaskSpec) *task.Task {
 		t.Condition = cmdText(ts.Name, "cond", 0)
 	}
 	for k := 0; k < ts.NVar; k++ {
+		if ts.EmptyVar == k+1 {
+			t.Variations = append(t.Variations, map[string]string{})
+			continue
+		}
 		m := map[string]string{"VS_VAR": variationName(k)}
 		for n, v := range ts.VarExtra {
 			m[n] = v
@@ -356,7 +371,7 @@ func ModelTaskFor(w *IntegWorld, t *TaskSpec, who string) *TaskExpect {
 	if nv > 0 {
 		vars = nil
 		for k := 0; k < nv; k++ {
-			vars = append(vars, variationName(k))
+			vars = append(vars, t.VarName(k))
 		}
 	}
 	for _, v := range vars {
